@@ -35,9 +35,17 @@ RULE = ("cases: random rooted trees (1..6 nodes quick, ..8 thorough; random chil
         "assignments with different coefficients), 'dup' (fully identical terms), 'zero' (some prefactor 0), 'lowrank' (coefficient matrix of prescribed low rank across an edge).  non-trivial = distinct "
         "(tree, Hamiltonian, method) with >= 2 terms and >= 2 nodes")
 PARTIAL = [
-    "combine_subtrees / cut_and_optimise / _reconnect_hyperedges / _copy_node (SGE, BIPARTITE) and the marking walk "
-    "add_single_term (TREE) are not modelled in Lean: their exactness is decided per input by the exact formal-sum "
-    "comparison of the library's state diagram with the padded Hamiltonian and by the dense oracle",
+    "combine_subtrees / cut_and_optimise / _reconnect_hyperedges / _copy_node (SGE, BIPARTITE) are not modelled line "
+    "by line.  Proved about the model: merge_equal_subtrees_preserves / combine_base_preserves (re-attaching + erasing "
+    "equal subtrees preserves sdDenote, no distinctness needed), cut_factor / cut_cover / cut_preserves (bilinear "
+    "identity behind a cut: Gamma = L*Gamma'*R and routing through a vertex cover with |Cu|+|Cv| vertices), "
+    "gamma_read_exact (the assignment Gamma[u][v] = coeff is exact iff no label pair repeats) and the two-node "
+    "composition sge_two_node_exact_partial.  NOT proved: that the pointer surgery of _create_combined_u_v_lists / "
+    "_reconnect_hyperedges / _copy_node realises these virtual nodes, the V-node hashing on trees with > 2 nodes "
+    "(where F-C01d lives) and the BFS driver; decided per input by the exact formal-sum comparison of the library's "
+    "state diagram with the padded Hamiltonian, by a stage probe (combine_subtrees must never change the denotation) "
+    "and by the dense oracle",
+    "the marking walk add_single_term (TREE) is not modelled; decided per input",
     "from_state_diagram (tensor filling, find_tensor_position, obtain_tensor_shape) is not modelled in Lean: "
     "sum over bond indices = sum over consistent hyperedge choices is checked per input (formal sum vs dense contraction)",
     "known defects F-C01a (TREE), F-C01b / F-C01c (SGE, BIPARTITE) and F-C01d (SGE): the full-strength statement is "
@@ -582,6 +590,54 @@ def gauge_free_diagram(case, diag: str) -> str:
     return ";".join(out) + ";" + parts[n]
 
 
+def probe_stages(ctx, case, ref, hp, meth) -> None:
+    """Wrap `combine_subtrees` / `cut_and_optimise` from outside and read the diagram's exact formal sum before and
+    after every call.  Theorem merge_equal_subtrees_preserves says that re-attaching equal subtrees can never change
+    the denotation (also for repeated terms): a change at a combine step is a model/implementation disagreement.
+    Changes at a cut step are only tallied (they are what the final comparison judges)."""
+    import pytreenet.ttno.state_diagram as sdm
+    SDc = sdm.StateDiagram
+    orig_cut, orig_comb = SDc.cut_and_optimise, SDc.combine_subtrees
+    events: List[Tuple[str, Any, Any]] = []
+
+    def read(sd):
+        try:
+            if diagram_problems(sd, ref):
+                return None
+            return diagram_formal_sum(sd, ref, limit=4000)
+        except Exception:       # noqa: BLE001
+            return None
+
+    def comb(self, hes, parent):
+        before = read(self)
+        orig_comb(self, hes, parent)
+        events.append(("combine", before, read(self)))
+
+    def cut(self, local_vs, current_node, parent):
+        before = read(self)
+        orig_cut(self, local_vs, current_node, parent)
+        events.append(("cut", before, read(self)))
+
+    SDc.combine_subtrees, SDc.cut_and_optimise = comb, cut
+    try:
+        try:
+            SDc.from_hamiltonian(hp, ref, meth)
+        except Exception:       # noqa: BLE001  (judged by the oracle, not here)
+            pass
+    finally:
+        SDc.combine_subtrees, SDc.cut_and_optimise = orig_comb, orig_cut
+    for kind, before, after in events:
+        if before is None or after is None:
+            ctx.tally("stage_probe", f"{kind}:unreadable")
+            continue
+        same = before == after
+        ctx.tally("stage_probe", f"{kind}:{'same' if same else 'changed'}")
+        if kind == "combine" and not same:
+            ctx.corr_fail(case, "combine_subtrees changed the denotation of the diagram: "
+                          + formal_diff(after, before))
+            break
+
+
 # ------------------------------------------------------------------ Lean protocol
 
 def lean_tree_tokens(case) -> str:
@@ -786,6 +842,8 @@ def run_case(ctx, case, model_out: Optional[List[str]] = None):
                 wrong.append(f"pad_with_identities gives {dict(tp)} for term {t[3]}")
                 break
         sd = StateDiagram.from_hamiltonian(hp, ref, meth)
+        if method in ("SGE", "BIPARTITE") and case["vseed"] % 5 == 0 and not cls["zero"]:
+            probe_stages(ctx, case, ref, hp, meth)
         dp = diagram_problems(sd, ref)
         if dp:
             wrong.append("state diagram malformed: " + "; ".join(dp[:2]))
